@@ -9,7 +9,7 @@
    the model's `mergeCreate` follows this flag, the theorems about the cell are stated for both values.
  * `reverseUserordRepaired`: whether lyd_diff_reverse_all finishes with the second pass lyd_diff_reverse_userord_r (the repair of
    finding F15 (a)/(b): anchors of reversed create/delete renamed, nested anchors added/removed, runs of user-ordered
-   instances put in reverse order); the model's `Diff.reverse` follows this flag (Diff/Reverse.lean).
+   instances put in reverse order) and reverses position metadata with lyd_diff_reverse_position (F15 (c)); the model's `Diff.reverse` follows this flag (Diff/Reverse.lean).
 The translation refuses (minic.Unsupported) when the statements have another shape than the two known ones.
 """
 import os, re, sys
@@ -121,6 +121,21 @@ def gen_diff13():
     defined = re.search(r"\nlyd_diff_reverse_userord_r\s*\(", src) is not None
     if called != defined:
         raise minic.Unsupported("lyd_diff_reverse_userord_r is %s but %s" % ("called" if called else "not called", "defined" if defined else "not defined"))
+    # (c): position metadata of a moved instance of a duplicate-instance list reversed by lyd_diff_reverse_position
+    pos_def = re.search(r"\nlyd_diff_reverse_position\s*\(", src) is not None
+    pos_use = len(re.findall(r"if \(lysc_is_dup_inst_list\(elem->schema\)\) \{ LY_CHECK_GOTO\(ret = lyd_diff_reverse_position\(elem, mod\), cleanup\);",
+                             rev_all))
+    old_use = len(re.findall(r"lyd_diff_reverse_meta\(elem, mod, \"orig-position\", \"position\"\)", rev_all))
+    if called:
+        if not pos_def or pos_use != 2 or old_use:
+            raise minic.Unsupported("lyd_diff_reverse_all: second pass present but the position metadata is not reversed by lyd_diff_reverse_position")
+        pbody = re.sub(r"\s+", " ", func_body(src, "lyd_diff_reverse_position"))
+        for pat in [r"cur_pos = \(pos <= orig_pos\) \? pos : pos - 1;", r"pos = \(orig_pos > cur_pos\) \? orig_pos \+ 1 : orig_pos;",
+                    r"lyd_change_meta\(meta1, cur_pos \? buf : \"\"\)", r"lyd_change_meta\(meta2, pos \? buf : \"\"\)"]:
+            if not re.search(pat, pbody):
+                raise minic.Unsupported("lyd_diff_reverse_position has another shape than the modelled one: /%s/ not found" % pat)
+    elif pos_def or pos_use or old_use != 2:
+        raise minic.Unsupported("lyd_diff_reverse_all: position metadata reversed in an unexpected way")
     if called:
         pos_loop = rev_all.find("LYD_TREE_DFS_END(root, elem)")
         if pos_loop < 0 or rev_all.find("lyd_diff_reverse_userord_r(diff, mod)") < pos_loop:
